@@ -164,7 +164,7 @@ class Eval:
         self.captured = []
 
     # -- entry points -----------------------------------------------------------------------------------------------
-    def call(self, fn, args):
+    def call(self, fn, args, node=None):
         body = self.crate.bodies.get(fn)
         if body is None or "hir" not in body:
             raise Unsupported("no body for %s" % fn)
@@ -174,6 +174,14 @@ class Eval:
         for p, a in zip(body.get("params", []), args):
             if not self.bind(p, a, env):
                 raise Unsupported("parameter pattern of %s does not match" % fn)
+        # generic parameters of the callee -> what this call passes for them (as in interp.call_body)
+        gen_, ta_ = body.get("generics"), (node or {}).get("targs")
+        if not hasattr(self, "tsubst"):
+            self.tsubst = []
+        if gen_ and ta_ and len(gen_) == len(ta_):
+            self.tsubst.append({g_: self._subst_ty(t_) for g_, t_ in zip(gen_, ta_) if not g_.startswith("'")})
+        else:
+            self.tsubst.append({})
         self.depth += 1
         try:
             return self.ev(body["hir"], env)
@@ -181,6 +189,35 @@ class Eval:
             return r.v
         finally:
             self.depth -= 1
+            self.tsubst.pop()
+
+    def _subst_ty(self, ty):
+        import re
+        if not ty or not getattr(self, "tsubst", None) or not self.tsubst[-1]:
+            return ty
+        m = self.tsubst[-1]
+        return re.sub(r"(?<![\w:])(Self|[A-Z]\w*)(?![\w:])", lambda mo: m.get(mo.group(0), mo.group(0)), ty)
+
+    def _resolve_trait_item(self, item, n):
+        """`Trait::item` named through a generic parameter of the function being evaluated: the impl item the current
+        substitution selects (None when there is none)."""
+        import re
+        if not item or item.startswith("<") or not getattr(self, "tsubst", None) or not n:
+            return None
+        tr_path, _, leaf = item.rpartition("::")
+        if tr_path not in self.crate.trait_paths():
+            return None
+        ta = n.get("targs")
+        t0 = ta[0] if ta else ((n.get("recv") or {}).get("aty") or (n.get("recv") or {}).get("ty"))
+        if not t0:
+            return None
+        c = re.sub(r"<.*$", "", self._subst_ty(t0).lstrip("&").replace("mut ", "").strip())
+        if not c:
+            return None
+        for k in self.crate.bodies:
+            if k.startswith("<" + c) and k.endswith(" as " + tr_path + ">::" + leaf):
+                return k
+        return None
 
     def const(self, path):
         if path in self._consts:
@@ -234,8 +271,12 @@ class Eval:
             c = STD_CONSTS.get(d)
             if c is not None:
                 return c
+            if d not in self.crate.bodies or "hir" not in self.crate.bodies[d]:
+                d = self._resolve_trait_item(d, n) or d
             return self.const(d)
         if dk in ("Fn", "AssocFn"):
+            if d not in self.crate.bodies:
+                d = self._resolve_trait_item(d, n) or d
             return FnItem(d)
         raise Unsupported("path %s (%s)" % (d, dk))
 
@@ -560,7 +601,10 @@ class Eval:
         for c in (inst, callee):
             c = facts.norm_path(c or "")
             if c in self.crate.bodies and "hir" in self.crate.bodies[c]:
-                return self.call(c, args)
+                return self.call(c, args, n)
+        ri_ = self._resolve_trait_item(facts.norm_path(callee or ""), n)
+        if ri_ is not None and "hir" in self.crate.bodies[ri_]:
+            return self.call(ri_, args, n)
         return self.std(inst or callee, callee, args, n)
 
     def e_MethodCall(self, n, env):
